@@ -443,6 +443,64 @@ def doc_layer(ctx, tmp):
     ctx.extra['document_layer_records'] = len([w for w in wants if w])
 
 
+def fresh_set_case(ctx, prop, k, tmp, fmt):
+    """"a fresh resource set" means that nothing of the writing one comes back: a model with references into a second
+    file, both saved and the writing resource set still alive; the first file loaded in a fresh resource set and the
+    references followed — every object reached belongs to a resource of the fresh set, and none is an object of the writer"""
+    import os
+    from pyecore import ecore as E
+    from pyecore.resources import ResourceSet, URI
+    from pyecore.resources.json import JsonResource
+    rng = common.sub_rng(ctx.seed, prop, 'fresh-set', k)
+    pk = E.EPackage('fs', f'http://verif/fs/{prop}/{k}', 'fs')
+    N = E.EClass('N')
+    pk.eClassifiers.append(N)
+    N.eStructuralFeatures.extend([E.EAttribute('name', E.EString), E.EReference('kids', N, upper=-1, containment=True),
+                                  E.EReference('one', N), E.EReference('lst', N, upper=-1, unique=False)])
+
+    def rs():
+        r = ResourceSet()
+        r.resource_factory['json'] = lambda uri: JsonResource(uri)
+        r.metamodel_registry[pk.nsURI] = pk
+        return r
+    writer = rs()
+    broot = N(name='b')
+    bs = [broot] + [N(name=f'b{i}') for i in range(rng.randint(1, 4))]
+    broot.kids.extend(bs[1:])
+    aroot = N(name='a')
+    aroot.one = rng.choice(bs)
+    aroot.lst.extend(rng.sample(bs, rng.randint(1, len(bs))))
+    use_uuid = rng.random() < .4
+    d = os.path.join(tmp, f'fs{prop}{k}')
+    os.makedirs(d, exist_ok=True)
+    rb = writer.create_resource(URI(os.path.join(d, f'b.{fmt}'))); rb.use_uuid = use_uuid; rb.append(broot)
+    ra = writer.create_resource(URI(os.path.join(d, f'a.{fmt}'))); ra.use_uuid = use_uuid; ra.append(aroot)
+    rb.save(); ra.save()
+    ctx.evaluations += 1
+    ctx.count(f'fresh-set/{fmt}/' + ('uuid' if use_uuid else 'fragment'))
+    ctx.nontriv(('fresh-set', k))
+    fresh = rs()
+    try:
+        la = fresh.get_resource(URI(os.path.join(d, f'a.{fmt}'))).contents[0]
+        reached = [la.one] + list(la.lst)
+        names = [x.name for x in reached]
+        targets = [unproxy(x) for x in reached]
+    except Exception as e:
+        ctx.violate({'clause': 'roundtrip-raised', 'error': type(e).__name__, 'fresh_set': True},
+                    f'two files loaded in a fresh resource set ({fmt}, uuid={use_uuid}): following a reference raised {type(e).__name__}: {e}',
+                    {'fresh_set': k, 'format': fmt})
+        return
+    theirs = {id(x) for x in bs}
+    bad = [n_ for n_, t in zip(names, targets) if t is None or id(t) in theirs or t.eResource is None
+           or t.eResource.resource_set is not fresh]
+    if bad:
+        ctx.violate({'clause': 'not-isomorphic', 'fresh_set': True},
+                    f'two files loaded in a fresh resource set ({fmt}, uuid={use_uuid}) while the writing one is alive: the references '
+                    f'to {bad} reach objects that are not part of the fresh set (the writer\'s own objects, or objects in no resource of it)',
+                    {'fresh_set': k, 'format': fmt})
+    del writer
+
+
 def run(ctx):
     common.use_repo()
     n = 300 if ctx.quick() else 6000
@@ -459,6 +517,8 @@ def run(ctx):
         layer_correspondence(ctx, tmp)
         doc_layer(ctx, tmp)
         empty_case(ctx, tmp, 'xmi')
+        for k in range(20 if ctx.quick() else 300):
+            fresh_set_case(ctx, 'C08', k, tmp, 'xmi')
         for h in range(80 if ctx.quick() else 1500):
             resave_case(ctx, 'C08', h, tmp, 'xmi')
     finally:
